@@ -94,7 +94,10 @@ impl S3 for FileSystem {
         let file_metadata = try_!(fs::metadata(&src_path).await);
         let last_modified = Timestamp::from(try_!(file_metadata.modified()));
 
-        let _ = try_!(fs::copy(&src_path, &dst_path).await);
+        // copying a file onto itself would truncate it
+        if src_path != dst_path {
+            let _ = try_!(fs::copy(&src_path, &dst_path).await);
+        }
 
         debug!(from = %src_path.display(), to = %dst_path.display(), "copy file");
 
